@@ -115,7 +115,7 @@ def auto_channel(run, idx, cls, bits, integer, rng):
       lo_r = ir.L("(fp.lt (fp.abs {0}) %s)" % L(FLOOR_SPLIT), xa)
       run.add("A%02d_max_not_clipped" % idx, ir.build_smt(b, dom + [hi_r, ir.L(nc, xa, xb, oa)]), meta=dict(meta, clause="max_not_clipped", region="above_epsilon_floor"), timeout=3600)
       run.add("A%02d_max_not_clipped_floor" % idx, ir.build_smt(b, dom + [lo_r, ir.L(nc, xa, xb, oa)]), meta=dict(meta, clause="max_not_clipped", region="near_epsilon_floor"), timeout=3600)
-      unit = "(fp.mul RNE {3} %s)" % L(2.0 ** (integer - (bits - 1)))
+      unit = "{3}"          # for quantized_linear the traced scale tensor is the quantization step itself (quantization_scale)
       rounded = "(and (fp.geq (fp.abs {0}) (fp.abs {1})) (not (fp.isZero {0})) (fp.gt (fp.abs (fp.sub RNE {2} {0})) (fp.mul RNE %s %s)))" % (unit, L(0.5 + 2.0 ** -10))
       run.add("A%02d_max_within_half_step" % idx, ir.build_smt(b, dom + [ir.L(rounded, xa, xb, oa, s0)]), meta=dict(meta, clause="max_within_half_step"), timeout=3600)
   else:
